@@ -9,7 +9,7 @@ from .mqspec import MQSpec
 
 
 def c06_profile(tier):
-    return Profile('c06', shapes=('chain', 'tee', 'tee_rejoin', 'join'), faults=(), required='maybe', skip=True,
+    return Profile('c06', shapes=('chain', 'tee', 'tee_rejoin', 'join', 'balance'), faults=(), required='maybe', skip=True,
                    skip_on_rejoin=False, src_skip=False, lat_max_ms=40, knob_variation=False, max_proc_ms=120,
                    max_relays=2, staggered_start=True, endless=True, low_latency=True, empty=False)
 
